@@ -3,6 +3,8 @@ import FqModel.Gen.Overrides
 import Proofs.C07
 import FqModel.JsonStr
 import Proofs.C07Json
+import FqModel.TryWrap
+import Proofs.C07Wrap
 /-!
   C07 — standard jq programs behave in fq as in the reference jq engine   (claimed PARTIAL, category `other`)
 
@@ -31,7 +33,8 @@ import Proofs.C07Json
         `guarded_transparent`, `guarded_transparent_evals`, `orig_captures_builtin`, `orig_call_is_builtin`,
         `override_transparent`, `gen_overrides_transparent`, `reQuoteMeta_literal`,
         `gen_reQuoteMeta_literal`, `escape_roundtrip`, `gen_tojson_string_equals_reference`,
-        `gen_tojson_string_roundtrip`, `gen_tojson_string_injective`.
+        `gen_tojson_string_roundtrip`, `gen_tojson_string_injective`, `tryterm_parse_print`,
+        `wrap_preserves_program`, `wrapBare_preserves_closed_program`, `wrapBare_captures_handler`.
   NOT proved (the PARTIAL part): that gojq's compiler/VM implement the modelled scoping, and everything
   that is not the override layer (regex engine, number formatting, the re-implemented functions' bodies:
   split/2 via splits, tojson's encoder, fromjson via decode, debug/stderr via fq's stdio) — differential only.
@@ -320,6 +323,44 @@ example : encode Gen.Encoder.fq [.ascii 97, .ascii 34, .ascii 10, .ascii 1, .run
 example : ({ Gen.Encoder.gojq with nonAscii := Gen.Encoder.gojq.nonAscii ++ [("c == '\u2028' || c == '\u2029'", "\\u202")] } : Esc)
     ≠ Gen.Encoder.gojq := by decide
 end Encoder
+
+/-! ## the CLI's wrap `try (PROG) catch <reporter>` does not change PROG
+
+  `fq EXPR` evaluates `try (EXPR) catch _cli_eval_on_expr_error` (eval.jq:41-52: the AST is printed and parsed
+  again). In the grammar fragment that matters (FqModel/TryWrap.lean: atoms, parentheses, try with optional catch,
+  a `catch` belongs to the nearest open `try`) printing then parsing gives the tree back iff no try-with-catch has
+  a body that ends in a catch-less try. fq's wrap always parenthesises, so the wrapped program survives whatever
+  PROG is; WITHOUT the parentheses a PROG that is `try BODY` captures the reporter as its own catch.
+  (Overlaps C11 — "the internal query rewrite preserves the user's program" — which states it on the rewrite's
+  AST; here it is the user-visible consequence for standard programs, checked by the CLI mode of harness c07 and
+  the `wrap` lines of the facts run.) -/
+section Wrap
+open FqModel.TryWrap Proofs.C07Wrap
+
+/-- print then parse is the identity on terms without a dangling catch -/
+theorem tryterm_parse_print (t : Tm) (hnd : noDangling t = true) : parseAll (print t) = some t :=
+  parseAll_print t hnd (Nat.le_succ_of_le (size_le_length t))
+
+/-- fq's wrap is safe for EVERY program (that is itself unambiguous) and every handler -/
+theorem wrap_preserves_program (prog handler : Tm) (hp : noDangling prog = true) (hh : noDangling handler = true) :
+    parseAll (print (wrap prog handler)) = some (wrap prog handler) :=
+  tryterm_parse_print _ (by simp [wrap, noDangling, hp, hh, endsOpen])
+
+/-- the bare wrap is safe exactly as long as the program does not end in a catch-less try … -/
+theorem wrapBare_preserves_closed_program (prog handler : Tm) (hp : noDangling prog = true) (hh : noDangling handler = true)
+    (hclosed : endsOpen prog = false) :
+    parseAll (print (wrapBare prog handler)) = some (wrapBare prog handler) :=
+  tryterm_parse_print _ (by simp [wrapBare, noDangling, hp, hh, hclosed])
+
+/-- … and for `try BODY` it is WRONG: the text `try try BODY catch H` is read as `try (try BODY catch H)` — the
+    user's try has acquired fq's reporter as its catch (seeded change S3-C07-1) -/
+theorem wrapBare_captures_handler :
+    parseAll (print (wrapBare (.tryn (.atom 0)) (.atom 1))) = some (.tryn (.tryc (.atom 0) (.atom 1))) ∧
+    parseAll (print (wrapBare (.tryn (.atom 0)) (.atom 1))) ≠ some (wrapBare (.tryn (.atom 0)) (.atom 1)) := by decide
+
+example : noDangling (wrap (.tryn (.tryc (.atom 0) (.tryn (.atom 1)))) (.atom 2)) = true := by decide
+example : parseAll (print (wrap (.tryn (.atom 0)) (.atom 1))) = some (wrap (.tryn (.atom 0)) (.atom 1)) := by decide
+end Wrap
 
 /-! ## non-vacuity -/
 
